@@ -87,7 +87,8 @@ pub struct BuildSim;
 // ------------------------------------------------------------------------------------------
 // input corruption
 
-const BAD_FIELDS: [&str; 22] = [
+const BAD_FIELDS: [&str; 26] = [
+    "\\u0000", "a\\u{0}", "\\u{0}b", "京\\u0000都",
     "", "-1", "-2", "32767", "32768", "-32768", "-32769", "99999", "abc", "*", "U99", "U0", "0/1/U3", "1e3", " 1", "0x10", "\\u{110000}",
     "\\ud800", "\\u{20}", "4294967295", "268435456", "A/B",
 ];
@@ -121,7 +122,8 @@ fn corrupt_csv(rng: &mut Rng, text: &str, n_rows_hint: usize) -> Vec<u8> {
                         _ => rng.below(f.len()),
                     }
                     .min(f.len() - 1);
-                    let v = match rng.below(13) {
+                    let v = match if fi == 0 && rng.chance(1, 3) { 13 } else { rng.below(13) } {
+                        13 => ["\\u0000", "x\\u{0}", "\\u{0}", "東\\u0000", "a\\u0000b"][rng.below(5)].to_string(),
                         10 => "a".repeat(126 + rng.below(4)),
                         11 => "あ".repeat(126 + rng.below(4)),
                         12 => "𠮟".repeat(63 + rng.below(3)),
@@ -441,6 +443,26 @@ impl Engine for BuildSim {
                         ops.push(BuildOp::Resolve);
                     }
                     ops.push(BuildOp::Compile { faults: false });
+                }
+                2 if rng.chance(1, 2) => {
+                    // a read that FAILS after a well-formed row with inline references, then compile
+                    let first = base_csv.lines().next().unwrap_or("").to_string();
+                    let f = split_csv_line(&first);
+                    if f.len() >= 19 {
+                        let inline = format!("{},{},{},{},{},{},{},{}", f[0], f[5], f[6], f[7], f[8], f[9], f[10], f[11]);
+                        let mut g = f.clone();
+                        g[0] = format!("{}新", f[0]);
+                        g[4] = g[0].clone();
+                        g[14] = "C".into();
+                        g[15] = inline.clone();
+                        g[16] = "*".into();
+                        g[17] = "*".into();
+                        let good = g.iter().map(|x| quote(x)).collect::<Vec<_>>().join(",");
+                        let bad = ["x,1", "y,a,b,c,d", "\"unterminated", "z,0,0,notanumber,z,*,*,*,*,*,*,z,z,*,A,*,*,*,*"][rng.below(4)];
+                        csvs.push(Blob::Text(format!("{}\n{}\n", good, bad)));
+                        ops.push(BuildOp::ReadLex { c: csvs.len() - 1 });
+                        ops.push(BuildOp::Compile { faults: false });
+                    }
                 }
                 _ => {
                     // more rows after the references were resolved, with or without resolving again
